@@ -166,3 +166,76 @@ void c18_check_parts(const char *pfx, const double *v, size_t n, const double *r
 	}
 	free(cover); free(seg);
 }
+
+/* ------------------------------------------------------ several dimensions */
+void c18_check_parts_nd(const char *pfx, const double * const *v, int dims, size_t n, const double (*range)[2],
+                        const struct c18_part *p, size_t np)
+{
+	uint8_t *cover = calloc(n + 1, 1);
+	size_t o = 0;
+
+	if (!cover) vf_inconclusive("out of memory");
+	for (size_t k = 0; k < np; k++) {
+		size_t raw = p[k].raw, usr = p[k].usr, left = n - o;
+		char pd[96];
+
+		snprintf(pd, sizeof(pd), "part %zu at %zu {raw=%zu usr=%zu cut=%u trim=%u} of n=%zu", k, o, raw, usr, p[k].cut, p[k].trim, n);
+		vf_count("monitor:nd-parts", 1);
+		if (left) VF_CHECK(raw >= 1, key(pfx, "no-progress"), "%s: raw == 0 with %zu values left", pd, left);
+		VF_CHECK(raw <= left, key(pfx, "raw-exceeds-input"), "%s: consumes more than the %zu values left", pd, left);
+		VF_CHECK(usr <= left, key(pfx, "usr-exceeds-input"), "%s: draws more than the %zu values left", pd, left);
+		if (usr) {
+			long double cut = 0, trim = 0;
+			int cut_known = 1, trim_known = 1;
+			for (int d = 0; d < dims; d++) {
+				const double *x = v[d], *r = range[d];
+				long double t;
+				for (size_t i = o + 1; i + 1 < o + usr; i++) {
+					if (!inr(x[i], r)) vf_fail(key(pfx, "interior-out-of-range"), "%s: interior drawn point [%zu] is %.17g in dimension %d, outside [%.17g,%.17g]", pd, i, x[i], d, r[0], r[1]);
+				}
+				if (!inr(x[o], r)) {
+					VF_CHECK(usr >= 2 && inr(x[o + 1], r), key(pfx, "drawn-start-out-of-range"), "%s: first drawn point is %.17g in dimension %d (range [%.17g,%.17g]) and has no in-range successor; %s", pd, x[o], d, r[0], r[1], around(x, n, o, usr, raw));
+					if (crossing(x[o], x[o + 1], r, &t)) { if (t > cut) cut = t; }
+					else cut_known = 0;
+				}
+				if (usr >= 2 && !inr(x[o + usr - 1], r)) {
+					VF_CHECK(inr(x[o + usr - 2], r), key(pfx, "drawn-end-out-of-range"), "%s: last drawn point is %.17g in dimension %d (range [%.17g,%.17g]) and its predecessor is out of range, too; %s", pd, x[o + usr - 1], d, r[0], r[1], around(x, n, o, usr, raw));
+					if (crossing(x[o + usr - 1], x[o + usr - 2], r, &t)) { if (t > trim) trim = t; }
+					else trim_known = 0;
+				}
+			}
+			if (cut_known) {
+				long double dec = p[k].cut / 65536.0L;
+				vf_count(cut > 0 ? "monitor:nd-cut-fraction" : "monitor:nd-cut-zero", 1);
+				if (fabsl(dec - cut) > TOL) {
+					char det[300];
+					size_t l = 0;
+					for (int d = 0; d < dims && l + 60 < sizeof(det); d++) l += snprintf(det + l, sizeof(det) - l, " dim %d: %.17g -> %.17g in [%.17g,%.17g];", d, v[d][o], usr >= 2 ? v[d][o + 1] : v[d][o], range[d][0], range[d][1]);
+					vf_fail(key(pfx, "cut-fraction"), "%s: cut decodes to %.9Lf, the line enters the visible box at %.9Lf of its first segment;%s", pd, dec, cut, det);
+				}
+			}
+			if (trim_known) {
+				long double dec = p[k].trim / 65536.0L;
+				vf_count(trim > 0 ? "monitor:nd-trim-fraction" : "monitor:nd-trim-zero", 1);
+				if (fabsl(dec - trim) > TOL) {
+					char det[300];
+					size_t l = 0;
+					for (int d = 0; d < dims && l + 60 < sizeof(det); d++) l += snprintf(det + l, sizeof(det) - l, " dim %d: %.17g <- %.17g in [%.17g,%.17g];", d, usr >= 2 ? v[d][o + usr - 2] : v[d][o], v[d][o + usr - 1], range[d][0], range[d][1]);
+					vf_fail(key(pfx, "trim-fraction"), "%s: trim decodes to %.9Lf, the line leaves the visible box at %.9Lf of its last segment (from the end);%s", pd, dec, trim, det);
+				}
+			}
+			for (size_t i = o; i < o + usr; i++) if (cover[i] < 3) cover[i]++;
+		}
+		o += raw;
+	}
+	VF_CHECK(o == n, key(pfx, "sum-raw"), "parts consume %zu of %zu values", o, n);
+	for (size_t i = 0; i < n; i++) {
+		int in = 1;
+		for (int d = 0; d < dims; d++) if (!inr(v[d][i], range[d])) in = 0;
+		if (!in) continue;
+		vf_count("monitor:nd-coverage-points", 1);
+		if (cover[i] == 0) vf_fail(key(pfx, "in-range-point-not-drawn"), "point %zu is in range in all %d dimensions but in no drawn portion (n=%zu, %zu parts)", i, dims, n, np);
+		if (cover[i] > 1) vf_fail(key(pfx, "in-range-point-drawn-twice"), "point %zu is in the drawn portion of %u parts (n=%zu, %zu parts)", i, cover[i], n, np);
+	}
+	free(cover);
+}
